@@ -167,6 +167,131 @@ theorem iiBody_eq (adj pav : α) : iiBody p c uztwc hpl adj pav v =
       (rateOf (nincOf adj pav v.uzfwc) adj p.lzsk (1.0 / Num.ofInt (nincOf adj pav v.uzfwc) * adj))
       hpl (nincOf adj pav v.uzfwc).toNat (iiTags adj (nincOf adj pav v.uzfwc) v) := rfl
 
+/-! ### zones of `step` before the loop -/
+
+def e1aOf (p : Params α) (uztwc evapt : α) : α := if (0.0 : α) < p.uztwm then evapt * uztwc / p.uztwm else 0.0
+def e1bOf (p : Params α) (uztwc evapt : α) : α :=
+  if uztwc < e1aOf p uztwc evapt then uztwc else e1aOf p uztwc evapt
+def uztwc1Of (p : Params α) (uztwc evapt : α) : α :=
+  if uztwc < e1aOf p uztwc evapt then 0.0 else uztwc - e1aOf p uztwc evapt
+def e2aOf (p : Params α) (uztwc uzfwc evapt : α) : α :=
+  if uztwc < e1aOf p uztwc evapt then Num.gmin (evapt - e1bOf p uztwc evapt) uzfwc else 0.0
+def uzfwc1Of (p : Params α) (uztwc uzfwc evapt : α) : α :=
+  if uztwc < e1aOf p uztwc evapt then uzfwc - e2aOf p uztwc uzfwc evapt else uzfwc
+
+def a1Of (p : Params α) (uztwc1 : α) : α := if (0.0 : α) < p.uztwm then uztwc1 / p.uztwm else 1.0
+def b1Of (p : Params α) (uzfwc1 : α) : α := if (0.0 : α) < p.uzfwm then uzfwc1 / p.uzfwm else 1.0
+def uztwc2Of (p : Params α) (uztwc1 uzfwc1 : α) : α :=
+  if a1Of p uztwc1 < b1Of p uzfwc1 then p.uztwm * ((uztwc1 + uzfwc1) / (p.uztwm + p.uzfwm)) else uztwc1
+def uzfwc2Of (p : Params α) (uztwc1 uzfwc1 : α) : α :=
+  if a1Of p uztwc1 < b1Of p uzfwc1 then p.uzfwm * ((uztwc1 + uzfwc1) / (p.uztwm + p.uzfwm)) else uzfwc1
+
+def e3aOf (p : Params α) (evapt e1b e2a lztwc : α) : α :=
+  if (0.0 : α) < p.uztwm + p.lztwm then
+    Num.gmin ((evapt - e1b - e2a) * lztwc / (p.uztwm + p.lztwm)) lztwc else 0.0
+def e5aOf (p : Params α) (evapt e1b e2a adimc uztwc2 : α) : α :=
+  if (0.0 : α) < p.uztwm + p.lztwm then
+    Num.gmin (e1b + (evapt - e1b - e2a) * (adimc - e1b - uztwc2) / (p.uztwm + p.lztwm)) adimc else 0.0
+
+def a3Of (p : Params α) (lztwc1 : α) : α := if (0.0 : α) < p.lztwm then lztwc1 / p.lztwm else 1.0
+def b3Of (p : Params α) (c : Consts α) (lztwc1 alzfsc alzfpc : α) : α :=
+  if (0.0 : α) < c.alzfpm + c.alzfsm - c.saved + p.lztwm then
+    (alzfpc + alzfsc - c.saved + lztwc1) / (c.alzfpm + c.alzfsm - c.saved + p.lztwm) else 1.0
+def delOf (p : Params α) (c : Consts α) (lztwc1 alzfsc alzfpc : α) : α :=
+  (b3Of p c lztwc1 alzfsc alzfpc - a3Of p lztwc1) * p.lztwm
+def lztwc2Of (p : Params α) (c : Consts α) (lztwc1 alzfsc alzfpc : α) : α :=
+  if a3Of p lztwc1 < b3Of p c lztwc1 alzfsc alzfpc then lztwc1 + delOf p c lztwc1 alzfsc alzfpc else lztwc1
+def alzfsc0Of (p : Params α) (c : Consts α) (lztwc1 alzfsc alzfpc : α) : α :=
+  if a3Of p lztwc1 < b3Of p c lztwc1 alzfsc alzfpc then alzfsc - delOf p c lztwc1 alzfsc alzfpc else alzfsc
+def alzfpc1Of (p : Params α) (c : Consts α) (lztwc1 alzfsc alzfpc : α) : α :=
+  if a3Of p lztwc1 < b3Of p c lztwc1 alzfsc alzfpc then
+    (if alzfsc0Of p c lztwc1 alzfsc alzfpc < 0 then alzfpc + alzfsc0Of p c lztwc1 alzfsc alzfpc else alzfpc)
+  else alzfpc
+def alzfsc1Of (p : Params α) (c : Consts α) (lztwc1 alzfsc alzfpc : α) : α :=
+  if a3Of p lztwc1 < b3Of p c lztwc1 alzfsc alzfpc then
+    (if alzfsc0Of p c lztwc1 alzfsc alzfpc < 0 then 0.0 else alzfsc0Of p c lztwc1 alzfsc alzfpc)
+  else alzfsc0Of p c lztwc1 alzfsc alzfpc
+
+def pav0Of (p : Params α) (pliq uztwc2 : α) : α := pliq + uztwc2 - p.uztwm
+def adimc2Of (p : Params α) (pliq uztwc2 adimc1 : α) : α :=
+  if pav0Of p pliq uztwc2 < 0 then adimc1 + pliq else adimc1 + p.uztwm - uztwc2
+def uztwc3Of (p : Params α) (pliq uztwc2 : α) : α :=
+  if pav0Of p pliq uztwc2 < 0 then uztwc2 + pliq else p.uztwm
+def pavOf (p : Params α) (pliq uztwc2 : α) : α :=
+  if pav0Of p pliq uztwc2 < 0 then 0.0 else pav0Of p pliq uztwc2
+
+def adjOf (pav : α) : α :=
+  if pav ≤ 5.08 then 1.0 else if pav < 25.4 then 0.5 * Num.sqrt (pav / 25.4) else 1.0 - 12.7 / pav
+def hplOf (c : Consts α) : α := c.alzfpm / (c.alzfpm + c.alzfsm)
+
+/-- the one or two `ii` passes of a time step -/
+def loopsOf (p : Params α) (c : Consts α) (uztwc3 pav : α) (v0 : Inner α) : Inner α :=
+  if pav ≤ 5.08 then iiBody p c uztwc3 (hplOf c) (adjOf pav) pav v0
+  else iiBody p c uztwc3 (hplOf c) (1.0 - adjOf pav) 0.0 (iiBody p c uztwc3 (hplOf c) (adjOf pav) pav v0)
+
+/-- everything a time step computes before the drainage loop -/
+structure Pre (α : Type) where
+  e1b : α
+  e2a : α
+  uztwc2 : α
+  uzfwc2 : α
+  e3a : α
+  e5a : α
+  lztwc2 : α
+  alzfsc1 : α
+  alzfpc1 : α
+  adimc2 : α
+  uztwc3 : α
+  pav : α
+
+def preOf (p : Params α) (c : Consts α) (st : State α) (x : α × α) : Pre α :=
+  let e1b := e1bOf p st.uztwc x.2
+  let e2a := e2aOf p st.uztwc st.uzfwc x.2
+  let uztwc1 := uztwc1Of p st.uztwc x.2
+  let uzfwc1 := uzfwc1Of p st.uztwc st.uzfwc x.2
+  let uztwc2 := uztwc2Of p uztwc1 uzfwc1
+  let uzfwc2 := uzfwc2Of p uztwc1 uzfwc1
+  let e3a := e3aOf p x.2 e1b e2a st.lztwc
+  let e5a := e5aOf p x.2 e1b e2a st.adimc uztwc2
+  let lztwc1 := st.lztwc - e3a
+  ⟨e1b, e2a, uztwc2, uzfwc2, e3a, e5a,
+    lztwc2Of p c lztwc1 st.alzfsc st.alzfpc, alzfsc1Of p c lztwc1 st.alzfsc st.alzfpc,
+    alzfpc1Of p c lztwc1 st.alzfsc st.alzfpc,
+    adimc2Of p x.1 uztwc2 (st.adimc - e5a), uztwc3Of p x.1 uztwc2, pavOf p x.1 uztwc2⟩
+
+/-- the loop variables at the start of the drainage loop -/
+def v0Of (p : Params α) (c : Consts α) (st : State α) (x : α × α) : Inner α :=
+  ⟨(preOf p c st x).alzfpc1, (preOf p c st x).alzfsc1, (preOf p c st x).uzfwc2, (preOf p c st x).lztwc2,
+    (preOf p c st x).adimc2, 0.0, 0.0, 0.0, x.1 * p.pctim, []⟩
+
+/-- the loop variables after the drainage loop -/
+def v2Of (p : Params α) (c : Consts α) (st : State α) (x : α × α) : Inner α :=
+  loopsOf p c (preOf p c st x).uztwc3 (preOf p c st x).pav (v0Of p c st x)
+
+def chOf (p : Params α) (c : Consts α) (st : State α) (x : α × α) : Channel α :=
+  channel p c st.qq x.2 (v2Of p c st x)
+
+variable (st : State α) (x : α × α)
+
+theorem step_uztwc : (step p c st x).1.uztwc = (preOf p c st x).uztwc3 := rfl
+theorem step_uzfwc : (step p c st x).1.uzfwc = (v2Of p c st x).uzfwc := rfl
+theorem step_lztwc : (step p c st x).1.lztwc = (v2Of p c st x).lztwc := rfl
+theorem step_lzfpc : (step p c st x).1.lzfpc = (chOf p c st x).lzfpc := rfl
+theorem step_lzfsc : (step p c st x).1.lzfsc = (chOf p c st x).lzfsc := rfl
+theorem step_adimc : (step p c st x).1.adimc = (v2Of p c st x).adimc := rfl
+theorem step_alzfsc : (step p c st x).1.alzfsc = (v2Of p c st x).alzfsc := rfl
+theorem step_alzfpc : (step p c st x).1.alzfpc = (v2Of p c st x).alzfpc := rfl
+theorem step_qq : (step p c st x).1.qq = (chOf p c st x).qq := rfl
+theorem step_runoff : (step p c st x).2.runoff = (chOf p c st x).qf := rfl
+theorem step_baseflow : (step p c st x).2.baseflow = (chOf p c st x).bf := rfl
+theorem step_surface : (step p c st x).2.surfaceRunoff = (chOf p c st x).qf - (chOf p c st x).bf := rfl
+theorem step_impervious : (step p c st x).2.imperviousRunoff = (v2Of p c st x).roimp := rfl
+theorem step_e1 : (step p c st x).2.e1 = (preOf p c st x).e1b * (1 - p.adimp - p.pctim) := rfl
+theorem step_e2 : (step p c st x).2.e2 = (preOf p c st x).e2a * (1 - p.adimp - p.pctim) := rfl
+theorem step_e3 : (step p c st x).2.e3 = (preOf p c st x).e3a * (1 - p.adimp - p.pctim) := rfl
+theorem step_e4 : (step p c st x).2.e4 = (chOf p c st x).e4 := rfl
+theorem step_e5 : (step p c st x).2.e5 = (preOf p c st x).e5a * p.adimp := rfl
+
 end Mirror
 
 end OW.RR.SacInv
